@@ -171,10 +171,19 @@ int main(int argc, char **argv) {
                 int newmem = (vh_step & 1);
                 nwalk = 0;
                 if (ts) L->lock(L);
-                while (L->getnext(L, &o, newmem)) {
-                    if (nwalk < 4096) walkids[nwalk] = vid(o.data, o.size);
-                    nwalk++;
-                    if (newmem) free(o.data);
+                int again = 0;
+                for (;;) {
+                    errno = 0;
+                    if (L->getnext(L, &o, newmem)) {
+                        if (nwalk < 4096) walkids[nwalk] = vid(o.data, o.size);
+                        nwalk++;
+                        if (newmem) free(o.data);
+                        continue;
+                    }
+                    /* a step that could not allocate its copy has no effect: the same call again (nothing fails any more) delivers that
+                     * element, and the walk goes on to the end */
+                    if (vh_failed > 0 && errno != ENOENT && again < 2) { again++; vh_fail_at = 0; vh_fail_from = 0; continue; }
+                    break;
                 }
                 ok = (errno == ENOENT);
                 if (ts) L->unlock(L);
